@@ -15,6 +15,7 @@ RULE = (
     "largest and smallest floats, gaps above 1e154, subnormal grids, and a re-check that arrays returned earlier are unchanged by "
     "later snaps - every 8th/16th case also an array of 4097-20000 values / rows in arbitrary order. Non-trivial sub-case = a probe within 2 ulps of a mid-point or outside "
     "the grid range; distinct by (grid hash, value)."
+    ' Also write-protected, zero-stride and empty values, digitize_data on Fortran-ordered / transposed / strided / write-protected / zero-stride data, consecutive-integer grids around zero, snaps under errstate(all=raise), arrays of k*65536+1 values (every 100th case) and four threads snapping at once (every 50th).'
 )
 ASSUMPTIONS = [
     "distance is judged as computed in float64 (|g - v| rounded); an exactly-nearest element is always accepted",
